@@ -295,12 +295,12 @@ def run_catalogue(prop):
         got = "skipped" if not r["applied"] else ("reported" if r["results"][prop]["rc"] == 1 else "missed")
         out.append({"kind": "seeded", "name": meta["id"], "expected": exp, "got": got, "ok": got == exp or got == "skipped" or (exp == "missed" and got == "reported"),
                     "obligations": [v[1] for v in r.get("results", {}).get(prop, {}).get("violations", [])][:6]})
-    for bp in sorted(glob.glob(os.path.join(core.VERIF, "mutants", "benign", "*.diff"))):
+    for bp in sorted(glob.glob(os.path.join(core.VERIF, "mutants", "benign", "*.diff")) + glob.glob(os.path.join(core.VERIF, "mutants", "benign_agents", "*.diff"))):
         txt = open(bp, "rb").read()
         m = re.search(r"# props: (.*)", txt.decode(errors="replace"))
         if not m or prop not in m.group(1).split():
             continue
-        body = txt[txt.index(b"--- a/"):]
+        body = txt[txt.index(b"diff --git"):] if b"diff --git" in txt else txt[txt.index(b"--- a/"):]
         r = mutants.try_patch(body, [prop])
         got = "skipped" if not r["applied"] else ("silent" if r["results"][prop]["rc"] == 0 else "alarm")
         out.append({"kind": "benign", "name": os.path.basename(bp)[:-5], "expected": "silent", "got": got, "ok": got in ("silent", "skipped")})
